@@ -460,7 +460,8 @@ def replay(rec, ctx):
                     # the caller reads everything back between the calls (results are checked at the end / stepwise)
                     for key in universe:
                         if not narrow or key[0] == _fam_of(e):
-                            api_read(root, key, 1)
+                            for sp in ((1, 2) if any(isinstance(x, str) and x in TRANS for x in key[1:]) else (1,)):
+                                api_read(root, key, sp)        # every spelling of the transition
                 if stepwise or i == len(rec["h"]) - 1:
                     viol = _compare(root, universe, e, _fam_of(e) if (narrow and not stepwise) else None)
                     if viol and stepwise:
